@@ -447,6 +447,8 @@ def templates():
             vals = (torch.from_numpy(p.rng.uniform(-1, 1, tuple(a.shape)).astype(np.float32)) * lim).to(a.dtype)
             qtn = ["qint8", "qfloat8_e4m3fn", "qfloat8_e5m2", None][p.rng.integers(4)]
             other = vals if qtn is None else p.act(tuple(a.shape), qtn, x=vals)
+            if qtn is not None and float(other.dequantize().abs().max()) > lim:
+                other = vals  # its own grid rounded a value beyond the range of `a`: that would saturate
             return lambda: torch.where(cond, a, other)
         if c == 2:
             other = p.randn(tuple(a.shape))
